@@ -691,6 +691,15 @@ func runSearch(a map[string]string) {
 		blk.txs = []*txn{t1, t2, t3}
 		runBlock(blk, "cross-tx")
 	}
+	// 2b. STAKE inside a STATICCALL (needs a registered miner account; outside the line protocol)
+	probes++
+	if d := hx.Guard(func() string { return stakeProbe(false) }); d != "" {
+		byKey["static-frame:stake:balances"] = violation{Key: "static-frame:stake:balances", Desc: d,
+			Replay: map[string]interface{}{"cmd": "harness/bin/c12 mode=dbg"}}
+	}
+	h = newHarness()
+	p.h = h
+	h.probe = p
 	// 3. random trees (the correspondence generator) under the same oracles
 	for !done && time.Now().Before(deadline) {
 		g := newGen(r.Fork(), st)
